@@ -163,10 +163,42 @@ class _Capture(logging.Handler):
             'sites': tb_sites(exc) if exc is not None else []})
 
 
+class _TraceCapture(logging.Handler):
+    """Records of OscFunc.trace (INFO, 'OSC Message Received: ...')."""
+
+    def __init__(self, sink):
+        super().__init__(level=logging.INFO)
+        self.sink = sink
+
+    def emit(self, rec):
+        if rec.levelno != logging.INFO:
+            return
+        try:
+            text = rec.getMessage()
+        except Exception:
+            return
+        if text.startswith('OSC Message Received:') and CANARY not in text:
+            self.sink.append(text)
+
+
+class _NoSteps:
+    """Stand-in for StepMonitor where the sys.monitoring tool id is needed by
+    the schedule injector (real-time shard): counts nothing."""
+    hangs = ()
+    total = 0
+    max_pc = 0
+
+    def arm(self, nbytes):
+        pass
+
+    def harvest(self):
+        return 0
+
+
 class Delivery:
     __slots__ = ('escaped', 'hangs', 't0', 't1', 'raw', 'inv', 'errs',
                  'canary_ok', 'canary_tries', 'steps', 'recv_port', 'sender',
-                 'clock_step', 'send_error')
+                 'clock_step', 'send_error', 'traced')
 
     def witness(self):
         return {'escaped': self.escaped, 'hangs': self.hangs,
@@ -176,7 +208,7 @@ class Delivery:
 
 
 class Rig:
-    def __init__(self):
+    def __init__(self, steps=True):
         from sc3.base.main import main
         from sc3.base import _osclib, _oscinterface
         self.main = main
@@ -189,7 +221,7 @@ class Rig:
         self.canary_ev = threading.Event()
         self.canary_seq = 0
         self.canaries_seen = collections.deque(maxlen=64)
-        self.mon = StepMonitor(_osclib)
+        self.mon = StepMonitor(_osclib) if steps else _NoSteps()
         cap = _Capture(self.errs)
         for name in ('sc3.base.clock', 'sc3.base._oscinterface',
                      'sc3.base._osclib', 'sc3.base.responders'):
@@ -197,6 +229,12 @@ class Rig:
             lg.setLevel(logging.ERROR)
             lg.addHandler(cap)
             lg.propagate = False
+        # OscFunc.trace() dumps at INFO level through sc3.base.responders
+        self.traced = collections.deque()
+        lg = logging.getLogger('sc3.base.responders')
+        lg.setLevel(logging.INFO)
+        lg.addHandler(_TraceCapture(self.traced))
+        self.server_addr = None
         main.add_osc_recv_func(self._raw_hook)
         # library's origin of elapsed time (unix seconds)
         self.init_time = getattr(main, '_init_time', None)
@@ -250,6 +288,47 @@ class Rig:
                 rig._on_inv(rid, ver, msg, None, None, None)
         return cb
 
+    def sink_server(self):
+        """Points the default server's address at a socket of the harness (so
+        that CmdPeriod.hard_run(), which sends to every local server whether
+        it runs or not, talks to nobody else on this host) -> (ip, port)."""
+        if self.server_addr is None:
+            from sc3.synth.server import Server
+            from sc3.base.netaddr import NetAddr
+            self.sink = socket.socket(socket.AF_INET, socket.SOCK_DGRAM)
+            self.sink.bind(('127.0.0.1', 0))
+            self.sink.setblocking(False)
+            self.server_addr = self.sink.getsockname()
+            Server.default.addr = NetAddr(*self.server_addr)
+        return self.server_addr
+
+    def wait_sink(self, token, timeout):
+        """Waits until the sink received a datagram containing token."""
+        end = time.monotonic() + timeout
+        while True:
+            try:
+                d, _ = self.sink.recvfrom(65536)
+                if token in d:
+                    return True
+                continue
+            except BlockingIOError:
+                pass
+            except (AttributeError, OSError):
+                return False
+            if time.monotonic() > end:
+                return False
+            time.sleep(0.0005)
+
+    def drain_sink(self):
+        n = 0
+        try:
+            while True:
+                self.sink.recvfrom(65536)
+                n += 1
+        except (BlockingIOError, AttributeError, OSError):
+            pass
+        return n
+
     # ---- extra ports ----------------------------------------------------
     def open_port(self, near):
         """Opens an extra UDP receive port through the public API."""
@@ -295,7 +374,7 @@ class Rig:
     def deliver(self, d, sender, port=None, udp=False):
         """One datagram through the receive path, then a canary; returns after
         the canary was dispatched (=> everything scheduled before it ran)."""
-        self.inv.clear(); self.raw.clear(); self.errs.clear()
+        self.inv.clear(); self.raw.clear(); self.errs.clear(); self.traced.clear()
         nh = len(self.mon.hangs)
         r = Delivery()
         r.sender = tuple(sender)
@@ -340,6 +419,7 @@ class Rig:
         r.raw = list(self.raw)
         r.inv = list(self.inv)
         r.errs = list(self.errs)
+        r.traced = list(self.traced)
         return r
 
     # ---- helpers ---------------------------------------------------------
